@@ -70,7 +70,8 @@ EXPECT_PROBES = ["decl_before_reg", "reg_before_decl", "chained_register",
                  "quit_retry_while_starting", "quit_foreign_thread",
                  "reregister", "empty_deps", "dup_deps", "redeclared",
                  "listen_args", "falsy_component",
-                 "argument_mutated_after_declaration"]
+                 "argument_mutated_after_declaration",
+                 "core_name_per_instance"]
 
 # known-finding ids (tolerated only when listed as open in
 # /verif/known_findings.json, each at exactly the signature described)
@@ -102,7 +103,11 @@ def gen_plan(seed, tier):
   for c in names:
     comps[c] = {"kind": r.wpick([(4, "ping"), (2, "plain"), (1, "pong")]),
                 "via": r.pick(["name", "obj", "new"]),
-                "core_name": r.chance(0.5),
+                # where the registration name comes from when none is
+                # passed: the class name, a class-level _core_name, one set
+                # per instance by __init__, or the latter over a class default
+                "core_name": r.pick([False, False, True, True, "inst",
+                                     "over"]),
                 # a component is whatever object was registered: also an
                 # empty container (len 0) or something false
                 "falsy": r.wpick([(5, ""), (1, "len"), (1, "bool")])}
@@ -547,11 +552,16 @@ class Harness(object):
       ns["_eventMixin_events"] = set([Ping if spec["kind"] == "ping"
                                       else Pong])
 
+    per_instance = spec.get("core_name") in ("inst", "over")
+
     def __init__(self):
       self.h_name = c
       self.h_gen = len(h.objs.setdefault(c, []))
       h.objs[c].append(self)
       h.cur[c] = self
+      if per_instance:
+        self._core_name = c
+        h.probe("core_name_per_instance")
     ns["__init__"] = __init__
     if spec.get("falsy") == "len":
       ns["__len__"] = lambda self: 0
@@ -560,7 +570,10 @@ class Harness(object):
       ns["__bool__"] = lambda self: False
       h.probe("falsy_component")
     if spec.get("core_name"):
-      ns["_core_name"] = c
+      if spec["core_name"] is True:
+        ns["_core_name"] = c
+      elif spec["core_name"] == "over":
+        ns["_core_name"] = "dflt_" + c
       cname = "Comp_" + c
     else:
       cname = c
